@@ -16,10 +16,19 @@ def run_patch(p):
         if r.returncode != 0:
             return p, {"error": "patch does not apply: " + (r.stdout + r.stderr)[-300:]}
         out = {}
-        env = dict(os.environ, ACQ_REPO=w + "/repo", ACQ_NO_EVIDENCE="1")
+        env = dict(os.environ, ACQ_REPO=w + "/repo", ACQ_NO_EVIDENCE="1", ACQ_NO_CONTROLS="1")
         for c in CHECKS:
             r = subprocess.run([V + "/check", c], capture_output=True, text=True, env=env, cwd=V)
             rules = sorted({l.split("[")[1].split("]")[0] for l in r.stdout.splitlines() if l.strip().startswith("finding [")})
+            for l in r.stdout.splitlines():
+                if l.startswith("VIOLATION ") and "replay=" in l:
+                    rp = l.split("replay=")[1].strip()
+                    try:
+                        rules = sorted({f["rule"] for f in json.load(open(rp))["findings"]})
+                        if rp.startswith(tempfile.gettempdir()):
+                            os.remove(rp)
+                    except Exception:
+                        pass
             out[c] = {"rc": r.returncode, "rules": rules}
         return p, out
     finally:
@@ -36,7 +45,7 @@ with ThreadPoolExecutor(max_workers=10) as ex:
         broken = [c for c, v in out.items() if v["rc"] == 2]
         print("%-70s caught by %s%s" % (name, hit or "NOTHING", (" broken: %s" % broken) if broken else ""), flush=True)
 old = {}
-mp = V + "/seeded/matrix.json"
+mp = os.environ.get("MATRIX_OUT", V + "/seeded/matrix.json")
 if os.path.exists(mp) and sys.argv[1:]:
     old = json.load(open(mp))
 old.update(res)
